@@ -125,6 +125,11 @@ func (e *Engine) oracles(i int, fail failFn, method, path string, browser bool, 
 					}
 				}
 				ent := strings.SplitN(strings.TrimSuffix(strings.TrimPrefix(ProxyEntry(after, segs[1]), "P("), ")"), "|", 5)
+				if before := strings.SplitN(strings.TrimSuffix(strings.TrimPrefix(ProxyEntry(snap, segs[1]), "P("), ")"), "|", 5); clean && len(ent) == 5 && len(before) == 5 &&
+					seen["enabled"] == 0 && ent[3] != before[3] {
+					return fail(i, "oracle", "C05", "enabled "+before[3], "enabled "+ent[3],
+						"an update answered 200 that does not mention `enabled` changed whether the proxy is enabled", "e4:C05:update-changed-unmentioned-enabled")
+				}
 				if clean && len(ent) == 5 {
 					if seen["upstream"] == 1 && val["upstream"] != "" && ent[2] != val["upstream"] {
 						return fail(i, "oracle", "C05", "upstream "+val["upstream"], "upstream "+ent[2],
